@@ -150,6 +150,33 @@ pub fn worker(spec_path: &str) -> ! {
     std::process::exit(0)
 }
 
+/// `vcrash --tmp-lock-worker <dir> <n> <k> <signal>`: n idle marker tempfiles; a second thread holds the registry lock of entry k
+/// (as a thread in the middle of a registry mutation would) while the signal arrives in the main thread.
+pub fn lock_worker(dir: &str, n: usize, k: usize, signal: i32) -> ! {
+    use gix_tempfile::{AutoRemove, ContainingDirectory};
+    gix_tempfile::signal::setup(gix_tempfile::signal::handler::Mode::DeleteTempfilesOnTerminationAndRestoreDefaultBehaviour);
+    let dir = PathBuf::from(dir);
+    drop(gix_tempfile::new(&dir, ContainingDirectory::Exists, AutoRemove::Tempfile).expect("warm-up"));
+    let base = gix_tempfile::registry::verif::next_index();
+    let handles: Vec<_> = (0..n).map(|i| gix_tempfile::mark_at(dir.join(format!("m{i}.tmp")), ContainingDirectory::Exists, AutoRemove::Tempfile).expect("mark")).collect();
+    let (tx, rx) = std::sync::mpsc::channel();
+    std::thread::spawn(move || {
+        let guard = gix_tempfile::registry::verif::lock_entry(base + k);
+        tx.send(guard.is_some()).ok();
+        loop {
+            std::thread::park();
+        }
+    });
+    if !rx.recv().unwrap_or(false) {
+        std::process::exit(43);
+    }
+    let locked: Vec<usize> = (0..n).filter(|i| gix_tempfile::registry::verif::entry_is_locked(base + i)).collect();
+    std::fs::write(dir.join("LOCKED"), locked.iter().map(|i| i.to_string()).collect::<Vec<_>>().join(" ")).expect("write");
+    unsafe { libc::raise(signal) };
+    drop(handles);
+    std::process::exit(42)
+}
+
 // ---------------------------------------------------------------------------------------------------------------------
 
 fn exe() -> PathBuf {
@@ -592,6 +619,52 @@ pub fn run(run: &'static Run) {
                 Ok(_) => ok(format!("parent-intact-child-ops-{}", c.child_ops.len())),
                 Err(m) => Err(m),
             }
+        },
+    );
+    // phase 4: another thread holds the lock of one registry entry while the signal arrives (a thread inside a registry mutation)
+    #[derive(Serialize, Deserialize, Hash, Clone, Debug)]
+    struct LockCase {
+        n: usize,
+        k: usize,
+        signal: i32,
+    }
+    let n = run.pick(24usize, 64);
+    let lock_cases: Vec<LockCase> = if run.is_replay() { Vec::new() } else { signals.iter().flat_map(|&s| (0..n).map(move |k| LockCase { n, k, signal: s })).collect() };
+    run.sub_with(
+        "entry-locked-by-other-thread",
+        vkit::Opts::default().chunk(256),
+        |emit| lock_cases.into_iter().for_each(|c| emit(c)),
+        |c: &LockCase| -> Verdict {
+            let d = vkit::scratch::Dir::new("c23l");
+            let out = Command::new(exe())
+                .arg("--tmp-lock-worker")
+                .arg(d.path())
+                .arg(c.n.to_string())
+                .arg(c.k.to_string())
+                .arg(c.signal.to_string())
+                .output()
+                .unwrap_or_else(|e| vkit::machinery!("spawn: {e}"));
+            use std::os::unix::process::ExitStatusExt;
+            if out.status.signal() != Some(c.signal) {
+                return bad("not-terminated", format!("worker ended with {:?} instead of dying from signal {}", out.status, c.signal));
+            }
+            let locked: BTreeSet<usize> = std::fs::read_to_string(d.join("LOCKED")).unwrap_or_default().split_whitespace().filter_map(|x| x.parse().ok()).collect();
+            if !locked.contains(&c.k) {
+                vkit::machinery!("the held entry {} is not reported as locked: {:?}", c.k, locked);
+            }
+            let left: BTreeSet<usize> = std::fs::read_dir(d.path())
+                .unwrap_or_else(|e| vkit::machinery!("read_dir: {e}"))
+                .flatten()
+                .filter_map(|e| e.file_name().to_string_lossy().strip_prefix('m').and_then(|r| r.strip_suffix(".tmp")).and_then(|r| r.parse().ok()))
+                .collect();
+            let outside: Vec<&usize> = left.difference(&locked).collect();
+            if !outside.is_empty() {
+                return bad("handler-gave-up", format!("tempfiles {outside:?} were left behind although their registry entries were not locked (locked: {locked:?}, held entry {})", c.k));
+            }
+            if !left.is_empty() {
+                return bad("leak-entry-lock-held", format!("tempfiles {left:?} stay behind: their registry lock was held by another thread when the signal arrived"));
+            }
+            ok("all-removed")
         },
     );
     run.require("signals were delivered and cleaned up", run.over_budget() || run.outcome_count("clean-between-operations") + run.outcome_count("clean-during-write") > 0);
